@@ -114,7 +114,8 @@ StopWait == Ev("stop_wait") /\ Same
 WaitDone == /\ Ev("wait_done") /\ ~active /\ owed = 0 /\ incb = 0 /\ Same
 
 \* expire loop: take (a1 = now - a_expire, a2 = 1 when the queue is being stopped at nng_fini)
-XTake == \E g \in HavocSet(f) : /\ Ev("xtake")
+XTake == \E g \in HavocSet(f) :
+         /\ Ev("xtake")
          /\ g.onx = 1 /\ g.expg = 0
          /\ (R.a2 = 0 => R.a1 > 0)              \* a timeout never fires before the deadline
          /\ R.onx = 0 /\ R.expg = 1
@@ -122,7 +123,8 @@ XTake == \E g \in HavocSet(f) : /\ Ev("xtake")
          /\ f' = Logged(R)
          /\ UNCHANGED <<active, dead, owed, incb, hascb>>
 \* expire loop: fire (a1 = rv, a2 = cancel fn taken, a3 = was sleeping); logged before the sleep completion is applied
-XFire == \E g \in HavocSet(f) : /\ Ev("xfire")
+XFire == \E g \in HavocSet(f) :
+         /\ Ev("xfire")
          /\ g.expg = 1
          /\ R.cfn = 0 /\ R.expg = 1 /\ R.onx = g.onx
          /\ R.a1 \in {0, ETIMEDOUT, ESTOPPED}
@@ -131,7 +133,8 @@ XFire == \E g \in HavocSet(f) : /\ Ev("xfire")
          /\ active' = IF R.a3 = 1 THEN FALSE ELSE active
          /\ owed' = IF R.a3 = 1 THEN Owe(1) ELSE owed
          /\ UNCHANGED <<dead, incb, hascb>>
-XDone == \E g \in HavocSet(f) : /\ Ev("xdone")
+XDone == \E g \in HavocSet(f) :
+         /\ Ev("xdone")
          /\ g.expg = 1 /\ R.expg = 0
          /\ f' = [g EXCEPT !.expg = 0, !.cfn = R.cfn, !.onx = R.onx, !.res = R.res, !.sleep = R.sleep, !.stop = R.stop,
                            !.abort = R.abort, !.xok = R.xok]
